@@ -123,31 +123,95 @@ are written in this order; the literals below are that order, the generated side
 
 def frame (l : String) : Option (List (String × String)) := (Gen.frameSteps.find? (fun p => p.1 == l)).map (·.2)
 
-/-- `Decoder::dns`: id, flags, the four counts in the order QD AN NS AR, then the four sections in the same order,
-each loop running over ITS count, then the end-of-input test -/
+/-- `Decoder::dns`: id, flags, four counts, then the four sections in the same order, loop `k` running over the
+count read by step `k` (`@2` = QDCOUNT … `@5` = ARCOUNT), then the end-of-input test -/
 theorem frame_dec_dns : (frame "dec.dns").all (· ==
-    [("id", "u16"), ("flags", "flags"), ("question_count", "u16"), ("answer_count", "u16"), ("authority_count", "u16"),
-     ("additional_count", "u16"), ("question_count", "question*"), ("answer_count", "rr*"), ("authority_count", "rr*"),
-     ("additional_count", "rr*"), ("is_finished", "is_finished")]) = true := by decide
+    [("_", "u16"), ("_", "flags"), ("_", "u16"), ("_", "u16"), ("_", "u16"), ("_", "u16"), ("@2", "question*"),
+     ("@3", "rr*"), ("@4", "rr*"), ("@5", "rr*"), ("_", "is_finished")]) = true := by decide
 
-/-- `Encoder::dns`: the same order on the way out; every count is the length of the section it precedes -/
+/-- `Encoder::dns`: the same order on the way out; every count is the length of the section written in its place -/
 theorem frame_enc_dns : (frame "enc.dns").all (· ==
-    [("id", "u16"), ("flags", "flags"), ("questions", "count"), ("answers", "count"), ("authorities", "count"),
-     ("additionals", "count"), ("questions", "question*"), ("answers", "rr*"), ("authorities", "rr*"),
-     ("additionals", "rr*")]) = true ∧ (frame "enc.count").all (· == [("count", "u16")]) = true := by decide
+    [(".id", "u16"), (".flags", "flags"), (".questions", "count"), (".answers", "count"), (".authorities", "count"),
+     (".additionals", "count"), (".questions", "question*"), (".answers", "rr*"), (".authorities", "rr*"),
+     (".additionals", "rr*")]) = true ∧ (frame "enc.count").all (· == [("_", "u16")]) = true := by decide
 
 /-- question: name, QTYPE, QCLASS on both sides -/
 theorem frame_question :
-    (frame "dec.question").all (· == [("domain_name", "domain_name"), ("q_type", "q_type"), ("q_class", "q_class")]) = true ∧
-    (frame "enc.question").all (· == [("domain_name", "domain_name"), ("q_type", "question_type"), ("q_class", "question_class")]) = true := by
+    (frame "dec.question").all (· == [("_", "domain_name"), ("_", "q_type"), ("_", "q_class")]) = true ∧
+    (frame "enc.question").all (· == [(".domain_name", "domain_name"), (".q_type", "question_type"), (".q_class", "question_class")]) = true := by
   decide
 
 /-- record header: owner, TYPE, CLASS (raw 16 bits, validated per type), TTL; RDLENGTH opens a sub-window that the
 record reader must leave exhausted (`finished`) -/
 theorem frame_rr :
-    (frame "dec.rr_header").all (· == [("domain_name", "domain_name"), ("type_", "rr_type"), ("class", "u16"), ("ttl", "u32")]) = true ∧
-    (frame "dec.rr_data").all (· == [("rd_length", "u16"), ("r_data", "sub")]) = true ∧
-    (frame "dec.rr").all (· == [("(type_,header)", "rr_header"), ("r_data", "rr_data"), ("_", "finished")]) = true := by decide
+    (frame "dec.rr_header").all (· == [("_", "domain_name"), ("_", "rr_type"), ("_", "u16"), ("_", "u32")]) = true ∧
+    (frame "dec.rr_data").all (· == [("_", "u16"), ("_", "sub")]) = true ∧
+    (frame "dec.rr").all (· == [("_", "rr_header"), ("_", "rr_data"), ("_", "finished")]) = true := by decide
+
+/-- OPT: options up to the end of the window; one option = code, length, a sub-window of exactly that length handed to
+the reader of that code, which must leave it exhausted; the writer: root owner, TYPE, payload size in CLASS, the
+packed TTL word, then the options inside the RDLENGTH bracket -/
+theorem frame_opt :
+    (frame "dec.opt").all (· == [("_", "is_finished"), ("_", "rr_edns_option*")]) = true ∧
+    (frame "dec.edns_option").all (· == [("_", "rr_edns_option_code"), ("_", "u16"), ("_", "sub"), ("_", "rr_edns_ecs"),
+      ("_", "rr_edns_cookie"), ("_", "rr_edns_padding"), ("_", "finished")]) = true ∧
+    (frame "enc.opt").all (· == [("_", "domain_name"), ("_", "rr_type"), (".requestor_payload_size", "u16"),
+      (".extend_rcode", "u32"), ("_", "create_length_index"), (".edns_options", "rr_edns_option*"),
+      ("_", "set_length_index")]) = true := by decide
+
+/-- APL: items up to the end of the window; one item = family, prefix, the negation/length octet, a sub-window of
+exactly that length for the address, left exhausted; the writer emits the address without trailing zero octets and
+back-patches the length octet -/
+theorem frame_apl :
+    (frame "dec.apl").all (· == [("_", "is_finished"), ("_", "rr_apl_apitem*")]) = true ∧
+    (frame "dec.apitem").all (· == [("_", "rr_address_family_number"), ("_", "u8"), ("_", "u8"), ("_", "sub"),
+      ("_", "rr_address"), ("_", "finished")]) = true ∧
+    (frame "enc.apitem").all (· == [("_", "rr_address_family_number"), ("_", "u8"), ("_", "u8"),
+      ("_", "rr_address_without_trailing_zeros"), (".negation", "set_address_length_index")]) = true := by decide
+
+/-- SVCB/HTTPS: priority, target, then (service form only) parameters up to the end of the window, each = key, length,
+a sub-window of exactly that length for the value reader, left exhausted -/
+theorem frame_svcb :
+    (frame "dec.svcb").all (· == [("_", "u16"), ("_", "domain_name"), ("_", "is_finished?"), ("_", "u16*"), ("_", "u16*"),
+      ("_", "sub*"), ("_", "rr_service_parameter*"), ("_", "finished*")]) = true ∧
+    (frame "enc.svcb").all (· == [(".name", "domain_name"), ("_", "rr_type"), ("_", "rr_class"), (".ttl", "u32"),
+      ("_", "create_length_index"), (".priority", "u16"), (".target_name", "domain_name"),
+      (".parameters", "rr_service_parameter*"), ("_", "set_length_index")]) = true := by decide
+
+/-! ## SvcParam kinds and EDNS options (`SvcParam.key`, `decSvcParam`, `encSvcParam`, `decOption`, `encOption`) -/
+
+/-- the model's kinds: Rust variant name, `SvcParam.key` of a value of that kind (`none` = the private range, where
+the key is the value's own number), and the reader / writer calls of its value (`decSvcParam`: `D.nums16`, `D.cstrs`,
+nothing, `num 2`, `D.hints 1 4`, `num 2` + `rest`, `D.hints 8 2`, nothing, `rest`) -/
+def modelSvcKinds : List (String × Option Nat × List String) :=
+  [("MANDATORY", some (SvcParam.mandatory []).key, ["u16*"]), ("ALPN", some (SvcParam.alpn []).key, ["string*"]),
+   ("NO_DEFAULT_ALPN", some SvcParam.noDefaultAlpn.key, []), ("PORT", some (SvcParam.port 0).key, ["u16"]),
+   ("IPV4_HINT", some (SvcParam.ipv4hint []).key, ["ipv4_addr*"]), ("ECH", some (SvcParam.ech []).key, ["u16", "vec"]),
+   ("IPV6_HINT", some (SvcParam.ipv6hint []).key, ["ipv6_addr*"]), ("PRIVATE", none, ["vec"]),
+   ("KEY_65535", some SvcParam.key65535.key, [])]
+
+def numStr : Option Nat → String
+  | some n => toString n
+  | none => "*number"
+
+/-- `get_registered_number` gives every kind the key the model gives it (0..6, 65535, own number for the private range) -/
+theorem svc_numbers_agree :
+    (Gen.svcNumbers.all fun e => modelSvcKinds.any fun k => k.1 == e.1 && numStr k.2.1 == e.2) = true := by decide
+
+/-- the value reader dispatches each key to the kind that carries this key and reads its value the way the model does -/
+theorem svc_dec_agree :
+    (Gen.svcDec.all fun e => modelSvcKinds.any fun k =>
+        k.1 == e.2.1 && (numStr k.2.1 == e.1 || (k.2.1.isNone && e.1 == "number")) && k.2.2 == e.2.2) = true := by decide
+
+/-- the value writer writes each kind the way the model does, and the way the reader reads it -/
+theorem svc_enc_agree :
+    (Gen.svcEnc.all fun e => modelSvcKinds.any fun k => k.1 == e.1 && k.2.2 == e.2) = true ∧
+    (Gen.svcEnc.all fun e => Gen.svcDec.all fun d => d.2.1 != e.1 || d.2.2 == e.2) = true := by decide
+
+/-- option code `C` is read into variant `C` by `rr_edns_<c>` and written back by the writer of the same name -/
+theorem opt_dispatch_agree :
+    (Gen.optDec.all fun d => d.1 == d.2.1 && Gen.optEnc.contains (d.2.1, d.2.2)) = true ∧
+    (Gen.optDec.all fun d => ["ECS", "Cookie", "Padding"].contains d.1) = true := by decide
 
 /-! ## Facts about the extracted code itself (no model involved) -/
 
